@@ -257,7 +257,7 @@ def roundtrip_checks(tier):
         offsets = ['+10:00', '-03:30', '+05:30', ''] if tier == 'quick' else ['+10:00', '-03:30', '+05:30', '+00:00', '', '-11:00', '+12:45', '-00:30']
         for k, off in enumerate(offsets):
             for conv in ('cf1d', 'shoc_standard', 'ugrid', 'cf2d'):
-              for scalar_time in ((False, True) if k < 2 else (False,)):
+              for scalar_time, time_bounds in (((False, False), (True, False), (False, True)) if k < 2 else ((False, False),)):
                     tname = 't' if conv == 'shoc_standard' else 'time'
                     tdim = 'record'
                     tvals = numpy.array(['2020-01-01T00:00', '2020-01-02T12:00'], dtype='datetime64[ns]')
@@ -272,11 +272,17 @@ def roundtrip_checks(tier):
                         ds = builders.ugrid('tqp', fill='nan', data_vars={'eta': ((tdim, 'nface'), numpy.arange(6.0).reshape(2, 3))})
                     ds = ds.assign_coords({tname: ((tdim,), tvals)})
                     units = f'days since 1990-01-01T00:00:00{off}' if off else ('days since 1990-01-01' if k % 2 else 'days since 1990-01-01 00:00:00')
-                    ds[tname].encoding.update(units=units, calendar='proleptic_gregorian', dtype='float64')
+                    # (the three names of the same calendar for these dates)
+                    calendar = ('proleptic_gregorian', 'standard', 'gregorian')[(k + len(conv)) % 3]
+                    ds[tname].encoding.update(units=units, calendar=calendar, dtype='float64')
+                    if time_bounds:
+                        # each time step has an interval: a bounds variable (decoded as times, no units of its own)
+                        ds[tname].attrs['bounds'] = tname + '_bnds'
+                        ds[tname + '_bnds'] = ((tdim, 'nv'), numpy.stack([tvals - numpy.timedelta64(6, 'h'), tvals + numpy.timedelta64(6, 'h')], axis=-1))
                     if scalar_time:
                         # one time step selected: the time coordinate is a scalar and is still saved with EMS units
                         ds = ds.isel({tdim: 1})
-                    src = os.path.join(work, f'{conv}-{k}-{int(scalar_time)}-src.nc')
+                    src = os.path.join(work, f'{conv}-{k}-{int(scalar_time)}{int(time_bounds)}-src.nc')
                     # the source has no fill-value attribute on variables that do not declare one (also coordinates)
                     for n, v in ds.variables.items():
                         if v.dtype.kind in 'fcmM' and '_FillValue' not in v.encoding and '_FillValue' not in v.attrs:
@@ -284,8 +290,8 @@ def roundtrip_checks(tier):
                     ds.to_netcdf(src)
                     orig = emsarray.open_dataset(src)
                     cls = type(orig.ems)
-                    out = os.path.join(work, f'{conv}-{k}-{int(scalar_time)}-out.nc')
-                    case = f'roundtrip:{conv}:{off}' + (':scalar-time' if scalar_time else '')
+                    out = os.path.join(work, f'{conv}-{k}-{int(scalar_time)}{int(time_bounds)}-out.nc')
+                    case = f'roundtrip:{conv}:{off}:{calendar}' + (':scalar-time' if scalar_time else '') + (':time-bounds' if time_bounds else '')
                     try:
                         orig.ems.to_netcdf(out)
                     except Exception as e:
